@@ -37,6 +37,7 @@ func runC05(p *eng.Prog, r *eng.Report, tier string) {
 	closedBitBeforeWrites(c, "C05.14")
 	handlerWriterKeepsTheLock(c, "C05.15")
 	attrGetNotUsed(c, "C05.16")
+	depthCountersDoNotWrap(c, "C05.18")
 	c05ContentNamespaceFromRole(c, "C05.17")
 	nEnum := enumExhaustive(c, "C05.13", []string{"stanza"})
 	c.r.Floor("C05.13", "enumeration methods in package stanza", nEnum, 2)
@@ -896,6 +897,51 @@ func handlerWriterKeepsTheLock(c *cx, id string) {
 		}
 	}
 	c.r.Floor(id, "stores to deferWriter.w", nw, 1)
+	// the lock-holding writer that TokenWriter() returns is handed over to
+	// deferWriter.w (the serve loop closes it there) on every path from the
+	// call to an exit: a writer that is dropped when its first token is refused
+	// keeps the output lock for ever
+	if et := c.fn(id, "", "(*deferWriter).EncodeToken"); et != nil {
+		g := et.Graph()
+		isStore := func(q eng.Point, nd ast.Node) bool {
+			as, ok := nd.(*ast.AssignStmt)
+			if !ok {
+				return false
+			}
+			for _, l := range as.Lhs {
+				if k, ok := et.FieldClass(l); ok && k == "xmpp.deferWriter.w" {
+					return true
+				}
+			}
+			return false
+		}
+		isClose := func(q eng.Point, nd ast.Node) bool { return et.ContainsCall(nd, "*.Close") != nil }
+		na := 0
+		for _, cl := range et.Calls("xmpp.Session.TokenWriter") {
+			na++
+			cp, _ := g.Where(cl)
+			// the store that contains the call itself hands it over at once
+			if par, ok := g.Parent(cl).(*ast.AssignStmt); ok && isStore(cp, par) {
+				c.r.Check(id, et, "lock-holding writer handed over", "E-res: the writer obtained from TokenWriter is stored in deferWriter.w (or closed) on every path to an exit", cl.Pos(), true, "")
+				continue
+			}
+			var exits []eng.Point
+			for _, rs := range g.Returns {
+				if p, ok := g.Where(rs); ok {
+					exits = append(exits, p)
+				}
+			}
+			exits = append(exits, g.Exits()...)
+			bad := ""
+			for _, ex := range exits {
+				if g.Reachable(g.After(cp), ex, nil, func(q eng.Point, nd ast.Node) bool { return isStore(q, nd) || isClose(q, nd) }) {
+					bad = "an exit is reachable from the acquisition without storing or closing the writer"
+				}
+			}
+			c.r.Check(id, et, "lock-holding writer handed over", "E-res: the writer obtained from TokenWriter is stored in deferWriter.w (or closed) on every path to an exit", cl.Pos(), bad == "", bad+": the session's output lock is never released")
+		}
+		c.r.Floor(id, "acquisitions of the output lock in deferWriter.EncodeToken", na, 1)
+	}
 	nm := 0
 	for _, f := range c.allFns() {
 		if !(strings.HasPrefix(f.Short, "xmpp.(*responseChecker).") || strings.HasPrefix(f.Short, "xmpp.responseChecker.") || strings.HasPrefix(f.Short, "xmpp.(*deferWriter).")) || f.Short == "xmpp.(*deferWriter).Close" {
